@@ -1,4 +1,5 @@
 import OpenHTF.Model.Logs
+import OpenHTF.Model.HandlerList
 /-
 C19 — log capture: attribution by logger name, exactly-once / order / pairing over all histories of
 start / log / finish, immutability of a finished record, MAC redaction.
@@ -229,3 +230,142 @@ example : String.ofList (redactMsg "AA:BB:CC:DD:EE:FF".toList) = "AA:BB:CC:<REDA
 example : String.ofList (redactMsg "short aa:bb:cc:dd:ee".toList) = "short aa:bb:cc:dd:ee" := by decide
 
 end OpenHTF.Logs
+
+namespace OpenHTF.HandlerList
+
+structure Inv (s : S) : Prop where
+  holder : ∀ t, s.lock = some t ↔ (s.pc t = 1 ∨ s.pc t = 2)
+  pcs : ∀ t, s.pc t = 0 ∨ s.pc t = 1 ∨ s.pc t = 2
+  registered : ∀ h, h ∈ s.live → h ∈ s.cur
+  copy : ∀ t, s.pc t = 2 → s.snap t = s.cur.filter (· != s.victim t)
+
+theorem inv_init : Inv {} := by
+  constructor <;> simp
+
+theorem inv_step (s s' : S) (a : Act) (hl : isLocked a = true)
+    (h : Inv s) (hs : step s a = some s') : Inv s' := by
+  obtain ⟨h1, h2, h3, h4⟩ := h
+  cases a with
+  | addUnlocked x => simp [isLocked] at hl
+  | acquire t =>
+    simp only [step] at hs
+    split at hs <;> cases hs
+    rename_i hc
+    constructor
+    · intro u; simp only [updP]; have := h1 u; have := h2 u; grind
+    · intro u; simp only [updP]; have := h2 u; grind
+    · exact h3
+    · intro u hu; simp only [updP] at hu; have := h4 u; grind
+  | add t x =>
+    simp only [step] at hs
+    split at hs <;> cases hs
+    rename_i hc
+    constructor
+    · exact h1
+    · exact h2
+    · intro y hy
+      simp only [List.mem_append, List.mem_singleton] at hy ⊢
+      rcases hy with hy | hy
+      · left; exact h3 y hy
+      · right; exact hy
+    · intro u hu
+      -- only the lock holder can be at pc 2, and the adder holds the lock at pc 1
+      have ht : s.lock = some t := (h1 t).2 (Or.inl hc.1)
+      have hu' : s.lock = some u := (h1 u).2 (Or.inr hu)
+      have : t = u := by rw [ht] at hu'; exact Option.some.inj hu'
+      subst this
+      rw [hc.1] at hu; cases hu
+  | filter t x =>
+    simp only [step] at hs
+    split at hs <;> cases hs
+    rename_i hc
+    constructor
+    · intro u; simp only [updP]; have := h1 u; have := h1 t; grind
+    · intro u; simp only [updP]; have := h2 u; grind
+    · exact h3
+    · intro u hu
+      simp only [updP, updL] at hu ⊢
+      by_cases e : u = t
+      · subst e; simp
+      · simp only [e, if_false] at hu ⊢
+        have ht : s.lock = some t := (h1 t).2 (Or.inl hc)
+        have hu' : s.lock = some u := (h1 u).2 (Or.inr hu)
+        have : t = u := by rw [ht] at hu'; exact Option.some.inj hu'
+        exact absurd this.symm e
+  | store t =>
+    simp only [step] at hs
+    split at hs <;> cases hs
+    rename_i hc
+    have hcopy := h4 t hc
+    constructor
+    · intro u; simp only [updP]; have := h1 u; have := h1 t; grind
+    · intro u; simp only [updP]; have := h2 u; grind
+    · intro y hy
+      simp only [List.mem_filter] at hy
+      rw [hcopy]
+      simp only [List.mem_filter]
+      exact ⟨h3 y hy.1, hy.2⟩
+    · intro u hu
+      simp only [updP] at hu
+      by_cases e : u = t
+      · subst e; simp at hu
+      · simp only [e, if_false] at hu
+        have ht : s.lock = some t := (h1 t).2 (Or.inr hc)
+        have hu' : s.lock = some u := (h1 u).2 (Or.inr hu)
+        have : t = u := by rw [ht] at hu'; exact Option.some.inj hu'
+        exact absurd this.symm e
+  | release t =>
+    simp only [step] at hs
+    split at hs <;> cases hs
+    rename_i hc
+    constructor
+    · intro u; simp only [updP]
+      have hu := h1 u; have ht := h1 t
+      by_cases e : u = t
+      · subst e; simp
+      · simp only [e, if_false]
+        constructor
+        · intro hn; cases hn
+        · intro hp
+          have h' : s.lock = some u := hu.2 hp
+          have h'' : s.lock = some t := ht.2 (Or.inl hc)
+          rw [h''] at h'; exact absurd (Option.some.inj h').symm e
+    · intro u; simp only [updP]; have := h2 u; grind
+    · exact h3
+    · intro u hu
+      simp only [updP] at hu
+      by_cases e : u = t
+      · subst e; simp at hu
+      · simp only [e, if_false] at hu; exact h4 u hu
+
+theorem inv_run : ∀ (as : List Act) (s s' : S), locked as = true → Inv s → run s as = some s' → Inv s'
+  | [], s, s', _, h, hr => by simp [run] at hr; subst hr; exact h
+  | a :: as, s, s', hl, h, hr => by
+    simp only [run] at hr
+    split at hr
+    · cases hr
+    · rename_i s1 hs1
+      simp only [locked, List.all_cons, Bool.and_eq_true] at hl
+      exact inv_run as s1 s' hl.2 (inv_step s s1 a hl.1 h hs1) hr
+
+/-- C19: under every interleaving of tests that start (register their record handler) and tests that end (remove
+    theirs), a handler that has been registered and not removed is on the logger's handler list: a starting run can
+    never lose its handler to another run's removal -/
+theorem c19_registered_handler_stays_registered (as : List Act) (s : S) (hl : locked as = true)
+    (hr : run {} as = some s) (h : Nat) (hh : h ∈ s.live) : h ∈ s.cur :=
+  (inv_run as {} s hl inv_init hr).registered h hh
+
+/-- registering without the lock is not safe: a handler appended between another run's filtered copy and its store is
+    dropped -/
+theorem unlocked_registration_can_lose_the_handler :
+    ∃ s, run {} [.acquire 0, .add 0 1, .filter 0 1, .addUnlocked 2, .store 0, .release 0] = some s ∧
+      2 ∈ s.live ∧ 2 ∉ s.cur := by
+  refine ⟨_, rfl, ?_⟩
+  decide
+
+example : ∃ s, run {} [.acquire 0, .add 0 1, .release 0, .acquire 1, .add 1 2, .release 1, .acquire 0, .filter 0 1, .store 0,
+    .release 0] = some s ∧ s.cur = [2] ∧ s.live = [2] := by
+  refine ⟨_, rfl, ?_⟩
+  decide
+
+end OpenHTF.HandlerList
